@@ -289,6 +289,44 @@ static void run_struct(std::mt19937_64& rng)
       e.boolean("neighbour", neighbour_ok);
       out.put(e);
     }
+    if (std::strcmp(outc, "ok") == 0 && r % 3 == 0) {
+      // (1b) the SECOND element of the array of two, designated by p[1]: its image starts one
+      // sandbox-ABI struct size after the first, which must stay untouched
+      std::memset(MEM + off0, 0xEE, 2 * gsz);
+      const char* o1 = "ok";
+      try {
+        ps[1] = s;
+      } catch (const std::runtime_error&) {
+        o1 = "abort";
+      }
+      {
+        tr::Ev e("sstore");
+        e.str("struct", I::name).str("path", "assign p[1]").raw("fields", I::fields).raw("vals", wlist(vals, I::nslots));
+        e.str("out", o1).bytes("image", MEM + off0 + gsz, gsz);
+        bool neighbour_ok = true;
+        for (long i = 0; i < gsz; i++) {
+          neighbour_ok = neighbour_ok && MEM[off0 + i] == 0xEE;
+        }
+        e.boolean("neighbour", neighbour_ok);
+        out.put(e);
+      }
+      if (std::strcmp(o1, "ok") == 0) {
+        const char* lo = "ok";
+        try {
+          tainted<S, Sbx> s2 = ps[1];
+          I::get(s2, got);
+        } catch (const std::runtime_error&) {
+          lo = "abort";
+        }
+        tr::Ev e("sload");
+        e.str("struct", I::name).str("path", "to_tainted p[1]").raw("fields", I::fields).bytes("image", MEM + off0 + gsz, gsz);
+        e.str("out", lo).raw("got", wlist(got, I::nslots));
+        out.put(e);
+      }
+      // restore the first element for the loads below
+      std::memset(MEM + off0, 0xEE, 2 * gsz);
+      *ps = s;
+    }
     if (std::strcmp(outc, "ok") == 0) {
       // (2) loads of that image: whole struct to tainted, field-wise, unwrapped
       {
